@@ -771,6 +771,8 @@ where
             // inner node
             let node = self.inner_nodes.inner_node(&edge);
             std::mem::forget(edge);
+            #[cfg(oxidd_verif)]
+            oxidd_core::verif::emit(oxidd_core::verif::site::RELEASE, &[id]);
             // SAFETY: `edge` is forgotten
             let _old_rc = unsafe { node.release() };
             debug_assert!(_old_rc > 1);
@@ -790,6 +792,8 @@ where
         if id >= TERMINALS {
             // inner node
             self.inner_nodes.inner_node(edge).retain();
+            #[cfg(oxidd_verif)]
+            oxidd_core::verif::emit(oxidd_core::verif::site::RETAIN, &[id]);
         } else {
             // SAFETY: `id` is a valid terminal ID
             unsafe { self.terminal_manager.retain(id) };
@@ -1207,6 +1211,8 @@ where
     #[track_caller]
     #[inline(always)]
     fn level(&self, no: LevelNo) -> Self::LevelView<'_> {
+        #[cfg(oxidd_verif)]
+        oxidd_core::verif::emit(oxidd_core::verif::site::LEVEL_LOCK, &[no as usize]);
         LevelView {
             store: self.store(),
             var_level_map: &self.var_level_map,
@@ -1278,9 +1284,13 @@ where
 
         let store = self.store();
         let mut collected = 0;
+        #[cfg(oxidd_verif)]
+        oxidd_core::verif::emit(oxidd_core::verif::site::GC_BEGIN, &[]);
         for level in &self.unique_table {
             let mut level = level.lock();
             collected += level.len() as u32;
+            #[cfg(oxidd_verif)]
+            oxidd_core::verif::emit(oxidd_core::verif::site::GC_LEVEL, &[]);
             // SAFETY: We prepared the garbage collection, hence there are no
             // "weak" edges.
             unsafe { level.gc(store) };
@@ -1292,6 +1302,8 @@ where
             // SAFETY: We called `pre_gc`, the garbage collection is done.
             unsafe { self.data.post_gc(self) };
         }
+        #[cfg(oxidd_verif)]
+        oxidd_core::verif::emit(oxidd_core::verif::site::GC_END, &[]);
         self.gc_ongoing.unlock();
         guard.defuse();
 
@@ -1484,6 +1496,15 @@ where
         drop: impl FnOnce(N),
     ) -> AllocResult<Edge<'id, N, ET>> {
         let hash = hash_node(&node);
+        #[cfg(oxidd_verif)]
+        let mut verif_event: Vec<usize> = {
+            let mut v = vec![0usize];
+            for c in node.children() {
+                v.push(oxidd_core::Edge::node_id(&*c));
+                v.push(oxidd_core::Edge::tag(&*c).as_usize());
+            }
+            v
+        };
         // SAFETY (next 2): The hash table only contains untagged edges
         // referencing inner nodes.
         match self
@@ -1491,6 +1512,12 @@ where
             .find_or_find_insert_slot(hash, unsafe { Self::eq(nodes, &node) })
         {
             Ok(slot) => {
+                #[cfg(oxidd_verif)]
+                {
+                    // SAFETY: `slot` was returned by `find_or_find_insert_slot`.
+                    verif_event[0] = oxidd_core::Edge::node_id(unsafe { self.0.get_at_slot_unchecked(slot) });
+                    oxidd_core::verif::emit(oxidd_core::verif::site::GOI_FOUND, &verif_event);
+                }
                 drop(node);
                 // SAFETY:
                 // - `slot` was returned by `find_or_find_insert_slot`. We have exclusive access
@@ -1500,6 +1527,11 @@ where
             }
             Err(slot) => {
                 let [e1, e2] = insert(node)?;
+                #[cfg(oxidd_verif)]
+                {
+                    verif_event[0] = oxidd_core::Edge::node_id(&e2);
+                    oxidd_core::verif::emit(oxidd_core::verif::site::GOI_NEW, &verif_event);
+                }
                 // SAFETY: `slot` was returned by `find_or_find_insert_slot`.
                 // We have exclusive access to the hash table and did not modify
                 // it in between.
@@ -1527,6 +1559,8 @@ where
                 // SAFETY (next 2): `edge` is untagged and points to an inner node
                 let slot_ptr = unsafe { inner_nodes.slot_pointer_unchecked(&edge) };
                 let id = unsafe { edge.node_id_unchecked() };
+                #[cfg(oxidd_verif)]
+                oxidd_core::verif::emit(oxidd_core::verif::site::GC_REMOVE, &[id as usize]);
                 std::mem::forget(edge);
 
                 // SAFETY: Since `rc` is 1, this is the last reference. We use
@@ -1707,6 +1741,8 @@ where
         node.assert_level_matches(self.level);
         // No need to check if the children of `node` are stored in `self.store`
         // due to lifetime restrictions.
+        #[cfg(oxidd_verif)]
+        oxidd_core::verif::emit(oxidd_core::verif::site::GOI_LEVEL, &[self.level as usize]);
         self.set.get_or_insert(
             &self.store.inner_nodes,
             node,
@@ -1719,6 +1755,8 @@ where
     unsafe fn get_or_insert_unchecked(&mut self, node: N) -> AllocResult<Edge<'id, N, ET>> {
         // No need to check if the children of `node` are stored in `self.store`
         // due to lifetime restrictions.
+        #[cfg(oxidd_verif)]
+        oxidd_core::verif::emit(oxidd_core::verif::site::GOI_LEVEL, &[self.level as usize]);
         self.set.get_or_insert(
             &self.store.inner_nodes,
             node,
@@ -1858,6 +1896,8 @@ where
         node.assert_level_matches(self.level);
         // No need to check if the children of `node` are stored in `self.store`
         // due to lifetime restrictions.
+        #[cfg(oxidd_verif)]
+        oxidd_core::verif::emit(oxidd_core::verif::site::GOI_LEVEL, &[self.level as usize]);
         self.set.get_or_insert(
             &self.store.inner_nodes,
             node,
@@ -1870,6 +1910,8 @@ where
     unsafe fn get_or_insert_unchecked(&mut self, node: N) -> AllocResult<Edge<'id, N, ET>> {
         // No need to check if the children of `node` are stored in `self.store`
         // due to lifetime restrictions.
+        #[cfg(oxidd_verif)]
+        oxidd_core::verif::emit(oxidd_core::verif::site::GOI_LEVEL, &[self.level as usize]);
         self.set.get_or_insert(
             &self.store.inner_nodes,
             node,
